@@ -27,6 +27,8 @@ def budget(tier):
 def case(draw):
     lst = draw(gen_bexp.ssa_list())
     subj = draw(st.sampled_from(SUBJECTS + ["default", "fast", "or2xor", "obvious"]))
+    if lst.get("chain") and draw(st.booleans()):
+        subj = draw(st.sampled_from(["cse", "cse", "merge+cse", "default"]))
     ev = draw(st.integers(0, 6)) > 0
     # unevaluated trees only without constants: sympy itself mishandles forms such as
     # Not(true, evaluate=False) in simplify_logic, which is not the library's doing
